@@ -4,6 +4,7 @@ import MosnVerif.Lemmas.EdfHeap
 import MosnVerif.Lemmas.LB
 import MosnVerif.Lemmas.EdfConc
 import MosnVerif.Lemmas.WrrHealth
+import MosnVerif.Lemmas.WcLock
 /-!
 # C06 — configured weights are honoured exactly (property theorems only)
 -/
@@ -537,5 +538,75 @@ theorem filtered_refresh_starves :
   decide +kernel
 
 end HealthChanges
+
+/-! ## concurrent requests on ONE weighted route: the shared random generator
+
+`RouteRuleImplBase.ClusterName` draws from one `math/rand.Rand` per rule (not safe for concurrent use) inside `rri.lock`.
+`Gen/WcLock` is the regenerated lock structure of `ClusterName` and of every other shared generator / cursor of the
+weighted-selection family; `Model/WcLock` runs any number of requests under every schedule, a draw being TWO atomic steps
+(read the generator state; write it back and hand out the output). -/
+section SharedGenerator
+open MosnVerif.Gen MosnVerif.Gen.WcLock MosnVerif.Model.WcLock MosnVerif.Lemmas.WcLock
+
+/-- **rng_lock_discipline** (regenerated fact): in `ClusterName` and in every mutex-protected site of the family
+(`random` balancer, round-robin factory, least-active and peak-EWMA fallbacks) every use of the shared generator — lazy
+creation, a method call, a copy of the pointer, a call through a copy — lies between `Lock()` and the matching `Unlock()`, and
+the pointer does not escape (`disciplinedCreated`: the sites whose generator is created by the constructor have no lazy
+creation to protect); the round-robin cursor is only accessed by `sync/atomic` read-modify-write operations; the
+unlocked draw of `EdfLoadBalancer.refresh` is reachable from the constructor only. -/
+theorem rng_lock_discipline :
+    disciplined WcLock.clusterName = true ∧ (∀ p ∈ WcLock.lockSites, disciplinedCreated p = true) ∧
+    (∀ p ∈ WcLock.atomicSites, atomicOnly p = true) ∧ WcLock.refreshOnlyFromConstructor = true := by
+  decide
+
+/-- **draws_are_a_permutation_of_stream**: requests `t = 0, 1, …` (any number) run ANY disciplined step programs (each its
+own: `safe false created0` = `disciplined` when the generator is created lazily, `disciplinedCreated` when it exists from the
+start); after EVERY schedule (complete or not) the outputs handed out so far, in
+hand-out order, are exactly the first outputs of the generator's stream — each output used exactly once, none lost, none
+handed to two requests — and the generator's state is the number of outputs handed out. -/
+theorem draws_are_a_permutation_of_stream (stream : Nat → Nat) (progs : Nat → List Step) (created0 : Bool)
+    (hd : ∀ t, safe false created0 (progs t) = true) (sched : List Nat) :
+    let c := runSched stream (initConf progs created0) sched
+    handed c = prefixOf stream c.log.length ∧ c.pos = c.log.length := by
+  have h := inv_run stream sched _ (inv_init stream progs created0 hd)
+  exact ⟨h.stream_eq, h.pos_eq⟩
+
+/-- the instance for the regenerated `ClusterName`: any number of concurrent requests on one weighted route. -/
+theorem clusterName_draws_follow_stream (stream : Nat → Nat) (created0 : Bool) (sched : List Nat) :
+    let c := runSched stream (initConf (fun _ => WcLock.clusterName) created0) sched
+    handed c = prefixOf stream c.log.length ∧ c.pos = c.log.length :=
+  draws_are_a_permutation_of_stream stream _ created0 (fun _ => disciplined_safe _ _ rng_lock_discipline.1) sched
+
+/-- **concurrent_weights_exact**: hence the exact proportions survive concurrency. Whatever the schedule of the concurrent
+requests on a weighted route, the number of handed-out draws that select cluster `n` is the number of stream outputs that do;
+over a full period of a generator that enumerates `[0, total)` (`stream i = i`, `total l` draws handed out) every cluster with
+weight `w` is selected exactly `w` times. -/
+theorem concurrent_weights_exact (l : List Entry) (hnd : (l.map (·.1)).Nodup) (n : String) (w : Nat) (hn : (n, w) ∈ l)
+    (progs : Nat → List Step) (created0 : Bool) (hd : ∀ t, safe false created0 (progs t) = true) (sched : List Nat)
+    (hfull : (runSched id (initConf progs created0) sched).log.length = total l) :
+    ((handed (runSched id (initConf progs created0) sched)).filter (fun v => select l v == some n)).length = w := by
+  have h := (draws_are_a_permutation_of_stream id progs created0 hd sched).1
+  rw [h, hfull]
+  have : prefixOf id (total l) = List.range (total l) := by simp [prefixOf]
+  rw [this]
+  exact count_exact l hnd n w hn
+
+example : disciplined [Step.other, .lock, .initRng, .draw, .unlock, .other] = true := by decide
+example : (runSched id (initConf (fun _ => WcLock.clusterName) false) [0, 0, 1, 1, 0, 0, 1, 0, 0, 1, 1, 1, 1, 1, 1, 0]).log =
+    [(0, 0), (1, 1)] := by decide
+
+/-- **draw_after_unlock_duplicates_and_loses** (negative witness, machine-checked): the shape "copy `rri.randInstance` under
+the lock, call `Intn` on the copy after `Unlock()`" is not disciplined, and with two requests the schedule below lets both read
+the generator state before either writes it back: both are handed output 0 of the stream, output 1 is never handed out, and
+after two draws the generator has advanced by one — `handed` is not the stream prefix. Both requests are complete and the
+mutex is free. -/
+theorem draw_after_unlock_duplicates_and_loses :
+    disciplined drawAfterUnlock = false ∧
+    (let c := runSched id (initConf (fun _ => drawAfterUnlock) false) [0, 0, 0, 0, 0, 1, 1, 1, 1, 1, 0, 1, 0, 1, 0, 1]
+     handed c = [0, 0] ∧ prefixOf id 2 = [0, 1] ∧ c.pos = 1 ∧ c.holder = none ∧
+     [0, 1].map (fun t => ((c.threads t).todo, (c.threads t).got)) = [([], [0]), ([], [0])]) := by
+  decide
+
+end SharedGenerator
 
 end MosnVerif.Props.C06
